@@ -22,7 +22,7 @@ def describe(tier):
         'bounds': 'N<=%d exhaustive over partitions; boundary lengths up to %d' % (n, MAXLEN[tier]),
         'assumptions': ['one DRBG value assignment per shape and seed (data values are outside the enumerated alphabet)',
                         'supported grid: PRF output width = next key width; SSE-1 array size a power of two and N < s; Pi2Lev |DB(w)| < B*B\'*b\''],
-        'must_be_nonzero': ['rebuild-same-key', 'pi2lev-small', 'pi2lev-medium', 'pi2lev-large', 'N=1', 'single-list-2^k', 'dp17-L>1', 'piptr-index-2-bytes'],
+        'must_be_nonzero': ['empty-list-database-refused', 'empty-list-database-accepted', 'rebuild-same-key', 'pi2lev-small', 'pi2lev-medium', 'pi2lev-large', 'N=1', 'single-list-2^k', 'dp17-L>1', 'piptr-index-2-bytes'],
     }
 
 
@@ -45,6 +45,8 @@ def case_list(name, label, cfg, tier):
     if name in ('CGKO06.SSE1', 'CGKO06.SSE2'):      # one bit-level PRP call per posting: keep the long boundary lists short
         lens = [v for v in lens if v <= (130 if tier == 'quick' else 520)]
     for p in domains.boundary_profiles(lens):
+        cases.append((p, 6, 'disjoint'))
+    for p in [[0, 1], [1, 0], [0, 2, 1], [2, 0], [0], [0, 0, 3], [3, 0, 1, 0]]:
         cases.append((p, 6, 'disjoint'))
     if label in ('base', 'default', 'default-s256'):
         # many keywords rather than long lists: counts around the one-byte boundary, a few hundred postings in dozens of lists
@@ -104,10 +106,18 @@ def run_case(r, seed, name, label, cfg, profile, kwlen, relation, cache=None):
         edb = scheme.EDBSetup(key, db)
         r['transitions'] += 2
     except Exception as e:
+        if 0 in profile:
+            # a keyword with an EMPTY posting list: a scheme may refuse such a database loudly at setup (several do); one that
+            # accepts it answers every keyword correctly
+            r.count('empty-list-database-refused')
+            r.outcome('empty-list-db-refused')
+            return
         r.v(PROPERTY, name, 'setup-raises', '%s:%s' % (core.exc_site(e), type(e).__name__), case,
             'KeyGen/EDBSetup succeed on a valid database', core.exc_text(e))
         r.outcome('setup-raises')
         return
+    if 0 in profile:
+        r.count('empty-list-database-accepted')
     for w in db:
         try:
             tk = scheme.TokenGen(key, w)
